@@ -643,7 +643,7 @@ func main() {
 	if r.Replay != "" {
 		var fr filesReplay
 		r.LoadReplay(&fr)
-		if fr.Part == "acra-keys-files" {
+		if fr.Part == "acra-keys-files" || fr.Part == "acra-keys-import-files" {
 			filesPart(r)
 			r.Finish()
 		}
